@@ -348,12 +348,21 @@ class Session:
         # float runs: the real solver, possibly poisoned
         e["eb"] = self.punits(self.snap_base, getattr(self, "scale_trial", None))
         self.maxunits["eb"] = max(self.maxunits["eb"], e["eb"])
+        self.maxunits["eb_pct_of_tol"] = max(self.maxunits.get("eb_pct_of_tol", 0), int(100 * e["eb"] / max(1, self.tolR)))
         mode = trial.get("mode", "true")
         if mode == "raise":
             e["ok"] = False
             self.ev.append(e)
             raise RuntimeError("scripted solver failure")
-        D = self.inner(A=A, b=b)
+        try:
+            D = self.inner(A=A, b=b)
+            if not bool(t.isfinite(D).all()):
+                raise RuntimeError("real solver returned a non-finite step")     # a solver may refuse
+        except Exception:
+            e["ok"] = False        # the real solver itself raised (e.g. singular / indefinite system)
+            self.genuine_raises = getattr(self, "genuine_raises", 0) + 1
+            self.ev.append(e)
+            raise
         if mode == "poison":
             D = -4.0 * D
         elif mode == "over":
@@ -385,7 +394,10 @@ class Session:
                 dd = D[k:k + p.numel()].view(p.shape)
                 k += p.numel()
                 exp_.append(q + dd)
-        self.scale_trial = [x.detach().clone() for x in exp_]
+        # magnitude of the largest trial point of this call (round-off of + D - D is relative to it)
+        prev = self.scale_trial
+        self.scale_trial = [x.detach().abs().clone() if prev is None else self.torch.maximum(prev[i], x.detach().abs())
+                            for i, x in enumerate(exp_)]
         return self.punits(exp_)
 
     def on_strategy(self, pg, last, loss, J, D, R):
